@@ -181,6 +181,7 @@ def run_check(prop, tier, jobs):
                 kf = [k for k in known if matches(k, prop, r, f)]
                 if kf:
                     known_hits.append((kf[0], r, f))
+                    obligations -= 1          # reported as a known finding, not counted among the obligations claimed as proved
                 else:
                     violations.append((r, f))
         # samples: three written-out obligations of this property
@@ -210,10 +211,17 @@ def run_check(prop, tier, jobs):
             exit_code = 1
         for r, f in violations:
             # a trace for the replay file (bounded size), obtained by re-running the one property
-            extra = {'solver_output': None, 'native_replay': None}
+            extra = {'solver_output': 'cbmc: %s: %s: FAILURE' % (f['property'], f['description']), 'native_replay': None}
+            nat = None
+            if len(vio_paths) < 3:
+                try:
+                    nat = verif.replay_violation(builts[r['cfg']], r['fn'], f['property'], prop)
+                except Exception as e:
+                    nat = {'reproduced': False, 'reason': 'replay failed: %s' % str(e)[:300]}
+            extra['native_replay'] = nat
             path = write_replay(prop, r, f, extra)
             vio_paths.append(path)
-            print('VIOLATION property=%s replay=%s no-failing-input-found' % (prop, path))
+            print('VIOLATION property=%s replay=%s%s' % (prop, path, '' if nat and nat.get('reproduced') else ' no-failing-input-found'))
             print('  obligation %s in %s/%s (small_vector.hpp:%s): %s | %s' % (f['property'], r['cfg'], r['fn'], r.get('lines'), f['description'][:160], f.get('clause') or ''))
             exit_code = 1
         if undecided and exit_code == 0:
@@ -236,6 +244,7 @@ def run_check(prop, tier, jobs):
                 'proofs_shared_identical_text': shared,
                 'functions_not_lowered': not_under,
                 'known_findings_hit': sorted({k['id'] for k, _, _ in known_hits}),
+                'known_finding_obligations': [{'id': k['id'], 'function': r['fn'], 'configuration': r['cfg'], 'obligation': f['property'], 'clause': f.get('clause')} for k, r, f in known_hits],
                 'bounded_stand_ins': [],
                 'explanation': 'Obligations are CBMC properties (contract clauses, loop-invariant base/step, assigns, automatic arithmetic and pointer checks, environment preconditions) tagged with this property, over the C text extracted from /repo on this run. Each proof is complete for all inputs of its configuration class (loops closed by loop contracts; no unwinding bound).',
             },
